@@ -106,6 +106,7 @@ type op =
   | OpRoute of params * bool * fprow list * fprow list
   | OpAccess of params * fprow list
   | OpIndex of nat
+  | OpParams of string * (string * string) list
   | OpRefresh of int * data
   | OpParallel of int * int list
   | OpOptimize of z * (nat * z * z) * (nat * z * z) * (nat * nat * nat * z * z) list
@@ -129,6 +130,10 @@ let read_ops () =
          let rows = counted row in
          ops := OpAccess (p, rows) :: !ops
        | "index" -> let sc = nat () in ops := OpIndex sc :: !ops
+       | "params" ->
+         let kind = next () in
+         let kv = counted (fun () -> let a = next () in let b = next () in (a, b)) in
+         ops := OpParams (kind, kv) :: !ops
        | "refresh" ->
          let k = int () in
          (match next () with "dataset" -> () | t -> failwith ("refresh: expected dataset, got " ^ t));
@@ -154,6 +159,68 @@ let journey_of d aw ad ew ed legs =
   if List.exists (fun x -> x = None) ls then None
   else Some (walk_js aw ad :: List.filter_map (fun x -> x) ls @ [ walk_js ew ed ])
 
+(* ---- parameter factories (Params.v) ------------------------------------------------------------- *)
+let unhex h = if h = "-" then "" else String.init (String.length h / 2) (fun i -> Char.chr (int_of_string ("0x" ^ String.sub h (2 * i) 2)))
+let codes s = List.init (String.length s) (fun i -> nat_of_int (Char.code s.[i]))
+let key_of = function
+  | "origin" -> KOrigin | "destination" -> KDestination | "place" -> KPlace | "alternatives" -> KAlternatives
+  | "time_of_trip" -> KTime | "time_type" -> KTimeType | "scenario_id" -> KScenario | "min_waiting_time" -> KMinWait
+  | "max_travel_time" -> KMaxTT | "max_access_travel_time" -> KMaxAcc | "max_egress_travel_time" -> KMaxEgr
+  | "max_transfer_travel_time" -> KMaxTr | "max_first_waiting_time" -> KMaxFW | _ -> KOther
+(* boost::uuids::string_generator on the texts the generators produce: 36 characters with dashes or 32 hex digits *)
+let is_hex c = (c >= '0' && c <= '9') || (c >= 'a' && c <= 'f') || (c >= 'A' && c <= 'F')
+let uuid_ok s =
+  let n = String.length s in
+  if n = 36 then (let ok = ref true in String.iteri (fun i c -> if i = 8 || i = 13 || i = 18 || i = 23 then (if c <> '-' then ok := false) else if not (is_hex c) then ok := false) s; !ok)
+  else if n = 32 then (let ok = ref true in String.iter (fun c -> if not (is_hex c) then ok := false) s; !ok)
+  else false
+let resolve_scenario d (v : nat list) : nat option option =
+  let s = String.init (List.length v) (fun i -> Char.chr (int_of_nat (List.nth v i))) in
+  if not (uuid_ok s) then None
+  else if String.length s = 36 && String.sub s 0 24 = "00000005-0000-4000-8000-" then
+    (match int_of_string_opt (String.sub s 24 12) with
+     | Some id -> (match find_scenario d (nat_of_int id) with Some _ -> Some (Some (nat_of_int id)) | None -> Some None)
+     | None -> Some None)
+  else Some None
+let services_of d sid = match find_scenario d sid with Some s -> nat_of_int (List.length s.s_services) | None -> O
+let print_common (c : common) alt =
+  ps "params ok"; List.iter pz [ c.cm_time; c.cm_minw; c.cm_maxtt; c.cm_maxacc; c.cm_maxegr; c.cm_maxtr; c.cm_maxfw ];
+  pi (if c.cm_fwd then 1 else 0); pi (if alt then 1 else 0);
+  (match c.cm_scen with Some s -> pn s | None -> ps " none")
+let errname = function
+  | C_EMPTY_SCENARIO -> "EMPTY_SCENARIO" | C_MISSING_PARAM_SCENARIO -> "MISSING_PARAM_SCENARIO" | C_MISSING_PARAM_ORIGIN -> "MISSING_PARAM_ORIGIN"
+  | C_MISSING_PARAM_DESTINATION -> "MISSING_PARAM_DESTINATION" | C_MISSING_PARAM_TIME_OF_TRIP -> "MISSING_PARAM_TIME_OF_TRIP"
+  | C_INVALID_ORIGIN -> "INVALID_ORIGIN" | C_INVALID_DESTINATION -> "INVALID_DESTINATION" | C_INVALID_NUMERICAL_DATA -> "INVALID_NUMERICAL_DATA"
+  | C_MISSING_PARAM_PLACE -> "MISSING_PARAM_PLACE" | C_INVALID_PLACE -> "INVALID_PLACE" | C_PARAM_ERROR_UNKNOWN -> "PARAM_ERROR_UNKNOWN"
+let run_params d kind kv =
+  let q = List.map (fun (a, b) -> (key_of (unhex a), codes (unhex b))) kv in
+  let http = function
+    | Http (code, BDataError st) -> Printf.sprintf " | http %d dataerror %d" (int_of_nat code) (int_of_nat st)
+    | Http (code, BQueryError c) -> Printf.sprintf " | http %d queryerror %s" (int_of_nat code) (errname c)
+    | Http (code, BAnswer (_, c, _)) -> Printf.sprintf " | http %d answer %d %d" (int_of_nat code) (int_of_z c.cm_time) (if c.cm_fwd then 0 else 1) in
+  let fin h = ps h in
+  if kind = "update" then begin
+    (* kv: (name, known?) pairs: value "1" = known cache name *)
+    let names = List.map (fun (_, b) -> if unhex b = "1" then Some O else None) kv in
+    (match handle_update names with
+     | UError -> ps "update error"
+     | USuccess l -> ps "update success"; List.iter pn l)
+  end else
+  let _ = fin in
+  if kind = "route" then begin
+    (match create_route (resolve_scenario d) (services_of d) q with
+     | POk (c, alt) -> print_common c alt
+     | PErr e -> ps "params err"; pn e
+     | PExn -> ps "params exn");
+    ps (http (handle_route (resolve_scenario d) (services_of d) (fun _ _ -> false) O q))
+  end else begin
+    (match create_access (resolve_scenario d) (services_of d) q with
+     | POk c -> print_common c false
+     | PErr e -> ps "params err"; pn e
+     | PExn -> ps "params exn");
+    ps (http (handle_access (resolve_scenario d) (services_of d) (fun _ _ -> false) O q))
+  end
+
 let run_model d0 ops =
   let dref = ref d0 in
   List.iter (fun op ->
@@ -165,6 +232,7 @@ let run_model d0 ops =
          let status = if d'.d_nodes = [] then 8 else if d'.d_lines = [] then 3 else if d'.d_paths = [] then 4 else if d'.d_scenarios = [] then 6 else if d'.d_trips = [] then 7 else 0 in
          ps "refresh ok"; pi status
        | OpParallel (_, _) -> ps "parallel"
+       | OpParams (kind, kv) -> run_params d kind kv
        | OpRoute (p, alt, acc, egr) ->
          (match find_scenario d p.q_scenario with
           | None -> ps "route noscenario"
@@ -271,6 +339,7 @@ let run_oracle d0 ops implfile =
       (match op with
        | OpRefresh (_, d') -> dref := d'; print_string "v refresh"
        | OpParallel (_, _) -> print_string "v parallel"
+       | OpParams (_, _) -> print_string "v params"
        | OpRoute (p, alt, acc, egr) ->
          (match find_scenario d p.q_scenario with
           | None -> print_string "v noscenario"
@@ -447,7 +516,35 @@ let run_delete d sc =
     Printf.printf "# remaining %d of %d trips\n" (List.length d''.d_trips) (List.length d.d_trips);
     print_dataset d''
 
+(* ---- C20: the model's handling of a router reply (Osrm.v) ---------------------------------------- *)
+let run_osrm () =
+  (* argv: osrm <fault> <maxt> <n> (node dur_tenths dist_tenths)*n *)
+  let fault = Sys.argv.(2) in
+  let maxt = z_of_int (int_of_string Sys.argv.(3)) in
+  let n = int_of_string Sys.argv.(4) in
+  let rows = List.init n (fun i -> (int_of_string Sys.argv.(5 + 3 * i), int_of_string Sys.argv.(6 + 3 * i), int_of_string Sys.argv.(7 + 3 * i))) in
+  let asked = List.map (fun (nd, _, _) -> nat_of_int nd) rows in
+  let num x = JNum (z_of_int x) in
+  let table durs dists = XStatus (true, Some (JObj [ (O, JArr [ JArr durs ]); (S O, JArr [ JArr dists ]) ])) in
+  let durs = num 0 :: List.map (fun (_, t, _) -> num t) rows and dists = num 0 :: List.map (fun (_, _, m) -> num m) rows in
+  let rec take k l = if k <= 0 then [] else match l with [] -> [] | x :: r -> x :: take (k - 1) r in
+  let x = match fault with
+    | "refuse" | "drop" | "truncate" -> XThrow
+    | "status500" -> XStatus (false, None)
+    | "empty" | "nonjson" -> XStatus (true, None)
+    | "nodurations" -> XStatus (true, Some (JObj [ (S (S O), JStr) ]))
+    | "nulls" -> table (List.map (fun _ -> JNull) durs) (List.map (fun _ -> JNull) dists)
+    | "fewer" -> let k = 1 + n / 2 in table (take k durs) (take k dists)
+    | "more" -> table (durs @ [ num 10 ]) (dists @ [ num 10 ])
+    | _ -> table durs dists in
+  match osrm_rows x asked maxt with
+  | Ok l -> print_string "ok"; List.iter (fun r -> Printf.printf " %d %d %d" (int_of_nat r.fp_node) (int_of_z r.fp_time) (int_of_z r.fp_dist)) l; print_newline ()
+  | Exn _ -> print_string "exn\n"
+  | UB _ -> print_string "ub\n"
+  | _ -> print_string "other\n"
+
 let () =
+  if Sys.argv.(1) = "osrm" then (run_osrm (); exit 0);
   let mode = Sys.argv.(1) in
   load Sys.argv.(2);
   (match next () with "dataset" -> () | t -> failwith ("expected dataset, got " ^ t));
